@@ -360,12 +360,15 @@ def result_arrays(res):
         for kind, items in (("comp", pop.comps), ("charac", pop.characs), ("par", pop.pars), ("link", pop.links)):
             seen = {}
             for it in items:
-                k = seen.get(it.name, 0)
-                seen[it.name] = k + 1
+                nm = it.name
+                if kind == "link" and getattr(it, "parameter", None) is None:
+                    nm = f"{it.source.name}>{it.dest.name}"   # a residual link has no parameter; its own name is a random identifier drawn at construction
+                k = seen.get(nm, 0)
+                seen[nm] = k + 1
                 v = getattr(it, "vals", None)
                 if v is None:
                     continue
-                out[(pop.name, kind, it.name, k)] = np.asarray(v, dtype=float)
+                out[(pop.name, kind, nm, k)] = np.asarray(v, dtype=float)
     return out
 
 
